@@ -254,6 +254,49 @@ return ok
             out.append(pair_case(f"c14.all.{kind}{'.' + pre if pre else ''}.in_", iu, ["I64(a, b)", "BU(3, u)"], f"{cls}.in_([a, 1])", f"{cls}.in_([1, b])", probe))
             out.append(pair_case(f"c14.all.{kind}{'.' + pre if pre else ''}.in_range", iu, ["I64(a, b)", "BU(3, u)", "0 <= 5 - a <= 3 and 0 <= 5 - b <= 3"], f"{cls}.in_range(a, 5)", f"{cls}.in_range(b, 5)", probe))
             out.append(pair_case(f"c14.all.{kind}{'.' + pre if pre else ''}.approx", iu, ["I64(a, b)", "BU(3, u)"], f"{cls}.equal_to_approx(a, 2)", f"{cls}.equal_to_approx(b, 2)", probe))
+    # ---- copies made by the copy protocol (copy.copy / copy.deepcopy; pickle on the concrete witness run): a copy is a separately
+    # built copy of the same definition - it compares equal both ways, behaves identically, and using / extending the copy leaves
+    # the original as it was (valida itself copies paths for modifiers, conditions for serialisation, rules for add_schema)
+    cdoc = "{'x': [u, 3, {'k': a}], 'a': {'b': u, 'c': '4'}, 'k': a, 1: [a, u]}"
+    COPIES = [
+        ("leaf", "Value.greater_than(a)", "tx(OBJ.filter([u, a, 0]).result)"),
+        ("leaf.kw", "Value.keys_contain_at_least_N_of(1, ['k', s])", "tx(OBJ.filter([{'k': u}, {s: 1, 'z': 0}, u]).result)"),
+        ("leaf.dtype", "Value.dtype.in_([int, str])", "tx(OBJ.filter([u, a, None]).result)"),
+        ("leaf.patharg", "Value.less_than(DataPath('k'))", "tx(Rule(('x', ListValue()), OBJ).test(%s).is_valid)" % cdoc),
+        ("comb", "(Value.greater_than(a) & Value.is_instance(int)) | (Value.equal_to(s) ^ Value.falsy())", "tx(OBJ.filter([u, a, s, 0]).result)"),
+        ("comb.null", "Value.greater_than(a) & NullCondition()", "tx(OBJ.filter([u, a, 0]).result)"),
+        ("part.map", "MapValue(key=Key.not_equal_to(s), value=Value.is_instance(list, dict), label='lab')", "tx(DataPath(OBJ).get_data(%s, return_paths=True))" % cdoc),
+        ("part.list", "ListValue(index=Index.less_than(a))", "tx(DataPath('x', OBJ).get_data(%s, return_paths=True))" % cdoc),
+        ("part.mol", "MapOrListValue(key=s, index=1)", "tx(DataPath('a', OBJ).get_data(%s, return_paths=True)) + tx(DataPath('x', OBJ).get_data(%s, return_paths=True))" % (cdoc, cdoc)),
+        ("path", "DataPath('x', ListValue(value=Value.greater_than(a)))", "tx(OBJ.get_data(%s, return_paths=True))" % cdoc),
+        ("path.mod", "DataPath(MapValue(value=Value.is_instance(list, dict))).length().last()", "tx(OBJ.get_data(%s, return_paths=True))" % cdoc),
+        ("path.bound", "DataPath('a', s, source_data={'a': {'b': u, 'c': a}})", "tx(OBJ.get_data())"),
+        ("rule", "Rule(('a', MapValue()), Value.greater_than(a), cast={str: int}, doc='d')", "summarize_test(OBJ.test({'a': {'b': u, 'c': '4'}, 'k': a}))"),
+        ("schema", "Schema([Rule(('a', 'c'), Value.greater_than(a), cast={str: int}), Rule(('a', MapValue(key=s)), Value.not_equal_to(None))])", "summarize_validation(OBJ.validate({'a': {'b': u, 'c': '4'}, 'k': a}))"),
+    ]
+    for cid, build, beh in COPIES:
+        body = f"""
+import copy
+x = {build}
+ref = {beh.replace('OBJ', 'x')}
+ok = True
+for how in ('copy', 'deepcopy', 'pickle'):
+    if how == 'pickle':
+        if not concrete_run():
+            continue
+        import pickle
+        y = pickle.loads(pickle.dumps(x))
+    else:
+        y = getattr(copy, how)(x)
+    {LAWS.strip().replace(chr(10), chr(10) + '    ')}
+    ok = ok and note(how + ': the copy equals the original', e_xy and e_yx and type(y) is type(x))
+    ok = ok and same(how + ': the copy behaves as the original', {beh.replace('OBJ', 'y')}, ref)
+    ok = ok and same(how + ': the original behaves as before', {beh.replace('OBJ', 'x')}, ref)
+    fresh = {build}
+    ok = ok and note(how + ': copy equals a separately built object', y == fresh and fresh == y)
+return ok
+"""
+        out.append(mk_case(f"c14.copies.{cid}", [("a", "int"), ("s", "str"), ("u", "Optional[int]" if cid in ("rule", "schema") else U)], body, pre=["I64(a)", "s in ('b', 'k', 'zz')", f"BU({L}, u)"], stubs=["sym_repr"]))
     # ---- transitivity / rebuilt
     t3 = [("a", "int"), ("b", "int"), ("c", "int")]
     for nm, build in [
